@@ -74,6 +74,41 @@ def exact(law, p, m0, t):
     return {"rev_a": a, "rev_b": tot - a}
 
 
+# ---- the engine's own Runge-Kutta trial step (Cash-Karp tableau of rk_kinetics), used only to *name* one known way in which the statement fails:
+# on a coarse trial step an intermediate stage can drive a reactant below zero, where rk_kinetics clamps it to 0; the stage rates are then no longer those of the
+# smooth law, the embedded error estimate loses its meaning and now and then comes out below tol, so the whole step is accepted although its true error is hundreds
+# of tolerances (seen: k1+k2 = 2.7/T, tol 1e-6, one step of T: estimate 0.78 tol, error 414 tol).  A violation is filed under that finding only when this replica accepts the very step the engine was asked
+# to take (estimate <= tol) AND lands on the engine's number; anything else keeps its ordinary key.
+_CK_B = [[], [1 / 5], [3 / 40, 9 / 40], [3 / 10, -9 / 10, 6 / 5], [-11 / 54, 5 / 2, -70 / 27, 35 / 27],
+         [1631 / 55296, 175 / 512, 575 / 13824, 44275 / 110592, 253 / 4096]]
+_CK_C = [37 / 378, 0.0, 250 / 621, 125 / 594, 0.0, 512 / 1771]
+_CK_C4 = [2825 / 27648, 0.0, 18575 / 48384, 13525 / 55296, 277 / 14336, 1 / 4]
+
+
+def _deriv(law, p, y):
+    if law == "first":
+        return [-p[0] * y[0]]
+    if law == "chain":
+        return [-p[0] * y[0], -p[1] * y[1] + p[0] * y[0]]
+    if law == "rev":
+        return [-(p[0] * y[0] - p[1] * y[1]), -(p[1] * y[1] - p[0] * y[0])]
+    return None
+
+
+def ck_trial(law, p, y, h):
+    """one Cash-Karp step of size h from y: (new y, largest |embedded error estimate|) or None for laws without a replica"""
+    if _deriv(law, p, y) is None:
+        return None
+    ks = []
+    for st in range(6):
+        yy = [y[j] + sum(_CK_B[st][m] * ks[m][j] for m in range(st)) for j in range(len(y))]
+        yy = [v if v >= 1e-30 else 0.0 for v in yy]      # rk_kinetics: 'if (m < 1.e-30) m = 0' at every stage
+        ks.append([h * d for d in _deriv(law, p, yy)])
+    y5 = [y[j] + sum(_CK_C[m] * ks[m][j] for m in range(6)) for j in range(len(y))]
+    err = max(abs(sum((_CK_C[m] - _CK_C4[m]) * ks[m][j] for m in range(6))) for j in range(len(y)))
+    return y5, err
+
+
 def gen_cases(ctx):
     n = ctx.params.get("cases") or (300 if ctx.tier == "quick" else 5000)
     for i in range(n):
@@ -162,6 +197,7 @@ def run_case(ctx, case):
         return Result(INCONCLUSIVE, reason="process failure / watchdog")
     law, tol, names, m0, p, T = b["law"], b["tol"], b["names"], b["m0"], b["p"], b["T"]
     findings, sigs = [], set()
+    coarse = set()      # variants in which a whole coarse step was accepted (see ck_trial)
     final = {}
     worst = 0.0
     nchk = 0
@@ -183,9 +219,18 @@ def run_case(ctx, case):
         if not krows:
             continue
         initial = rows[0]
+        prev_t, prev_y = 0.0, [m0[nm] for nm in names]
         for d in krows:
             t = d["time"]
             ex = exact(law, p, m0, t)
+            # did the engine take this (sub)step as one accepted Runge-Kutta step?  (batch variants only: their rows follow each other in time)
+            whole = False
+            if not inc:
+                prev_t, prev_y = 0.0, [m0[nm] for nm in names]      # cumulative steps: every row is integrated from the initial state
+            if ig[0] == "rk" and vname in ("one", "split", "incr", "list") and t > prev_t:
+                tr = ck_trial(law, p, prev_y, t - prev_t)
+                if tr and tr[1] <= tol and all(abs(tr[0][j] - d["kin_" + nm]) <= 10 * tol for j, nm in enumerate(names)):
+                    whole = True
             for nm in names:
                 got = d["kin_" + nm]
                 nchk += 1
@@ -193,11 +238,16 @@ def run_case(ctx, case):
                 if got < -1e-30:
                     findings.append(("C12/negative-amount/%s" % law, "%s variant %s: KIN(%s) = %.6e < 0 at t = %.6g" % (case["id"], vname, nm, got, t)))
                 if abs(got - ex[nm]) > 100 * tol:
-                    findings.append(("C12/closed-form%s/%s/%s-o%s" % ("" if abs(got - ex[nm]) <= 1e5 * tol else "-gross", law, ig[0], ig[1]), "%s variant %s (%s, tol %g): KIN(%s) at t=%.8g is %.12g, closed form %.12g (difference %.3e = %.1f x tol)" % (
-                        case["id"], vname, ig, tol, nm, t, got, ex[nm], got - ex[nm], abs(got - ex[nm]) / tol)))
+                    if whole:
+                        coarse.add(vname)
+                    findings.append(("C12/closed-form%s/%s/%s-o%s%s" % ("" if abs(got - ex[nm]) <= 1e5 * tol else "-gross", law, ig[0], ig[1], "/whole-step-accepted" if whole else ""),
+                                     "%s variant %s (%s, tol %g): KIN(%s) at t=%.8g is %.12g, closed form %.12g (difference %.3e = %.1f x tol)%s" % (
+                        case["id"], vname, ig, tol, nm, t, got, ex[nm], got - ex[nm], abs(got - ex[nm]) / tol,
+                        "; the step of %.6g s up to this row is one accepted Cash-Karp step (embedded estimate within tol)" % (t - prev_t) if whole else "")))
                     break
             if findings:
                 break
+            prev_t, prev_y = t, [d["kin_" + nm] for nm in names]
         last = [d for d in krows if abs(d["time"] - T) <= 1e-9 * T]
         if last and vname != "advection":
             final[vname] = last[-1]
@@ -228,7 +278,9 @@ def run_case(ctx, case):
                 if abs(a - c) > 100 * tol:
                     igs = {v[0]: v[2] for v in b["runs"]}
                     which = igs[vname] if vname == "other" and igs[vname][0] == "cvode" else igs["one"]
-                    findings.append(("C12/step-division%s/%s/%s/%s-o%s" % ("" if abs(a - c) <= 1e5 * tol else "-gross", law, vname, which[0], which[1]), "%s: KIN(%s) at T=%.8g is %.12g in one step but %.12g with variant %s (difference %.1f x tol %g)" % (
+                    findings.append(("C12/step-division%s/%s/%s/%s-o%s%s" % ("" if abs(a - c) <= 1e5 * tol else "-gross", law, vname, which[0], which[1],
+                                                                           "/whole-step-accepted" if ("one" in coarse or vname in coarse) and which[0] == "rk" else ""),
+                                     "%s: KIN(%s) at T=%.8g is %.12g in one step but %.12g with variant %s (difference %.1f x tol %g)" % (
                         case["id"], nm, T, a, c, vname, abs(a - c) / tol, tol)))
     stats = {"n_checks": nchk, "worst_error_in_tol_units": worst, "n_variants_run": len(final)}
     sample = dict(id=case["id"], law=law, tol=tol, integrator=b["base"], T=T, parms=p, m0=m0, variants=sorted(final), worst_error_in_tol=worst)
